@@ -325,6 +325,21 @@ def run(ctx):
                 raise Inconclusive("old version %d of chain %s does not generate alone" % (i, key))
             sch = re.search(r'std::string EvoWriterBase::schema_ = R"\((.*?)\)";', open(os.path.join(r, "out/cpp/protocols.cc")).read(), re.S).group(1)
             old.append((pk, sch, cxx.build(os.path.join(r, "out/cpp"), "plain")))
+            if i >= 1:
+                # the same version as it was really deployed: generated with *its* predecessors listed. Streams written by that tree carry the schema text
+                # that tree embeds - it has to be the text the version embeds when generated alone (which the newest reader is tested against below)
+                rl = os.path.join(base, "listed_v%d" % i)
+                common.write_tree(rl, evo.chain_files(chain[: i + 1], o1, None, labels[:i]))
+                pl = cli.run_cli("generate", os.path.join(rl, pk.dir), home)
+                ctx.ev()
+                if pl.rc != 0:
+                    raise Inconclusive("version %d of chain %s does not generate with its predecessors listed: %s" % (i, key, cli.clean(pl.stderr)[:200]))
+                schl = re.search(r'std::string EvoWriterBase::schema_ = R"\((.*?)\)";', open(os.path.join(rl, "out/cpp/protocols.cc")).read(), re.S).group(1)
+                ctx.count("listed-vs-alone-schema")
+                if schl != sch:
+                    ctx.violation("schema-of-version-depends-on-its-listed-predecessors", "chain %s (%s): version %d embeds a different schema when it is generated with its own predecessors listed than when generated "
+                                  "alone - a later package recognises only one of the two, so streams of the really deployed version %d would be refused" % (key, edits, i, i), {"case_dir": base, "version": i})
+                shutil.rmtree(os.path.join(rl, "out"), ignore_errors=True)
         cn = Codec(newest)
         pn = newest.find("Evo")
         bad = False
